@@ -752,7 +752,12 @@ pub(crate) fn add_model<P: ProtoModel>(
     executor: &Executor,
     abort_signal: &Signal,
     model_names: &mut Vec<String>,
+    observers: &mut Vec<(String, Box<dyn ChannelObserver>)>,
 ) {
+    // Register the mailbox observer of every model, sub-models included, so
+    // that deadlocks can be attributed to them.
+    observers.push((name.clone(), Box::new(mailbox.0.observer())));
+
     #[cfg(feature = "tracing")]
     let span = tracing::span!(target: env!("CARGO_PKG_NAME"), tracing::Level::INFO, "model", name);
 
@@ -763,6 +768,7 @@ pub(crate) fn add_model<P: ProtoModel>(
         executor,
         abort_signal,
         model_names,
+        observers,
     );
     let model = model.build(&mut build_cx);
 
